@@ -33,9 +33,20 @@ type scenario struct {
 	ops     []scOp
 	reply   map[string]float64 // request id -> reply delay in T units; <0 = never; ids are r1, r2, ... in send order
 	end     float64
+	// directed scenarios: run only with these stalls ("site|hit"); they must be clean on the unchanged tree, so
+	// their violations carry the scenario name in the signature and the property named here
+	only []string
+	prop string
 }
 
 var scenarios = []scenario{
+	// the connection drops while the dispatcher is inside Write (which then fails); two more requests follow while
+	// disconnected; after the reconnection both must be written and answered (C10)
+	{name: "c-drop-during-write", ops: []scOp{{0, "send", ""}, {0.3, "disconnect", ""}, {0.4, "send", ""}, {0.45, "send", ""}, {2.0, "connect", ""}},
+		reply: map[string]float64{"r1": 0.1, "r2": 0.1, "r3": 0.1}, end: 4.5, only: []string{"ws.Write<|1"}, prop: "C10"},
+	// the same with the next write failing after the reconnection
+	{name: "c-drop-during-write-2", ops: []scOp{{0, "send", ""}, {0.3, "disconnect", ""}, {0.4, "send", ""}, {0.45, "send", ""}, {0.5, "send", ""}, {2.0, "connect", ""}},
+		reply: map[string]float64{"r1": 0.1, "r2": -1, "r3": 0.1, "r4": 0.1}, end: 6.5, only: []string{"ws.Write<|1"}, prop: "C10"},
 	{name: "c-queue-timeout", ops: []scOp{{0, "send", ""}, {0.05, "send", ""}, {0.1, "send", ""}},
 		reply: map[string]float64{"r1": 0.3, "r2": -1, "r3": 0.1}, end: 3.2},
 	{name: "c-late-reply", ops: []scOp{{0, "send", ""}, {0.1, "send", ""}},
@@ -172,6 +183,7 @@ func runScenario(sc scenario, stallSite string, stallIdx int) schedResult {
 			}
 			l.gateAt("ws.Write>")
 		}
+		fc.onEnter = func() { l.gateAt("ws.Write<") }
 		c.SetResponseHandler(func(rr ocpp.Response, id string) { l.add("resp", "", id); l.gateAt("handler.resp") })
 		c.SetErrorHandler(func(e *ocpp.Error, det interface{}) { l.add("err", "", e.MessageId); l.gateAt("handler.err") })
 		c.SetRequestHandler(func(rr ocpp.Request, id string, action string) {})
@@ -259,12 +271,17 @@ func runScenario(sc scenario, stallSite string, stallIdx int) schedResult {
 			where = append(where, g.state+" @ "+g.top+" "+g.where)
 		}
 		sort.Strings(where)
+		// (directed scenarios too: a deadlock is C07's business and is matched against its known findings)
 		viol("C07", sigOfBlocked(where), fmt.Sprintf("the endpoint did not go idle: API callers wedged=%v, goroutines blocked for ever: %v", wedged, where), where)
 	} else {
 		checkLog(sc.name, evs, schedT, true, func(prop, sig, what string, replay interface{}) {
 			kind := "client"
 			if sc.server {
 				kind = "server"
+			}
+			if sc.prop != "" {
+				viol(sc.prop, sc.name+"/"+sig+":"+kind, what, replay)
+				return
 			}
 			viol(prop, sig+":"+kind, what, replay)
 		})
@@ -305,6 +322,15 @@ func init() {
 				sites = append(sites, s)
 			}
 			sort.Strings(sites)
+			if len(scenarios[i].only) > 0 {
+				for _, o := range scenarios[i].only {
+					p := strings.Split(o, "|")
+					var j int
+					fmt.Sscan(p[1], &j)
+					all = append(all, encodeRun(schedRun{i, p[0], j}))
+				}
+				continue
+			}
 			for _, s := range sites {
 				n := d.Hits[s] + 1
 				if n > maxPerSite {
@@ -318,7 +344,8 @@ func init() {
 		results := append(dry, runSched(all, 10)...)
 		allRuns := append(runs, all...)
 		seen := map[string]bool{}
-		for k, r := range results {
+		for kk, r := range results {
+			k := kk
 			rep.Evaluations++
 			if r.Events > 0 {
 				rep.Distinct++
@@ -330,6 +357,23 @@ func init() {
 				// rough runs: the failing (scenario, gate) cell is not stable from run to run (real timers, real
 				// scheduler), so the signature names only the kind of failure; calm runs must never fail
 				sig := v.Sig
+				if scenarios[sc].prop != "" && v.Property == scenarios[sc].prop && !seen[sig] {
+					// directed scenarios are deterministic when run alone: confirm (machine load shifts the scripted times)
+					again := 0
+					for k := 0; k < 3; k++ {
+						for _, rr := range runSched([]string{allRuns[kk]}, 1) {
+							for _, v2 := range rr.Violations {
+								if v2.Sig == sig {
+									again++
+								}
+							}
+						}
+					}
+					if again < 2 {
+						rep.Stats["directed_not_reproduced"] = asInt(rep.Stats["directed_not_reproduced"]) + 1
+						continue
+					}
+				}
 				if !seen[sig] {
 					seen[sig] = true
 					v.What = fmt.Sprintf("scenario %s with hit #%s of gate %s stalled for 1.5x the timeout: %s", scenarios[sc].name, f[2], f[1], v.What)
